@@ -724,6 +724,21 @@ func scenBytes(seed uint64, thorough bool) (out scenOut, kcase string) {
 		nv := leveldb.VerifDumpVersion(w.db)
 		fl, ok1 := commitFlush(nil, nv)
 		man, ok2 := manNow()
+		// Commit triggers a table compaction when level 0 is full; its commit may land before the manifest is read.
+		// The version must be exactly the pinned one plus the transaction's tables, before and after the read.
+		want := len(s.ver) + len(before.tables)
+		if before.info.MemLen != 0 {
+			want++
+		}
+		nv2 := leveldb.VerifDumpVersion(w.db)
+		stable := len(nv) == want && len(nv2) == want
+		for i := 0; stable && i < len(nv); i++ {
+			stable = nv[i].Num == nv2[i].Num && nv[i].Level == nv2[i].Level
+		}
+		if !stable {
+			s.dead = true
+			out.count("bytes_case_dropped_compaction_after_commit")
+		}
 		nf := int64(0)
 		if ok2 && len(man) > 0 {
 			nf, _ = decodeNextFile(man[len(man)-1])
